@@ -1,4 +1,5 @@
-import p_cards
+import p_cards, p_eval
 
 CHECKS = {}
-CHECKS.update(p_cards.CHECKS)
+for m in (p_cards, p_eval):
+    CHECKS.update(m.CHECKS)
